@@ -419,3 +419,113 @@ def _(it, a, info):
         f = it.zst_value(st, {})   # substs of the defining frame are unknown here; closures defined in generic fns carry them when materialised
     args = list(tup.f) if isinstance(tup, Agg) else ([] if tup is UNIT else [tup])
     return it.call_value(f, args)
+
+# ------------------------------------------------------------------ more Iterator / DoubleEndedIterator methods
+def drain_back(it, src):
+    while True:
+        v = iter_back(it, src)
+        if v is STOP: return
+        yield v
+
+@model('Iterator::rposition')
+def _(it, a, info):
+    items = list(drain(it, a[0]))
+    for i in range(len(items) - 1, -1, -1):
+        if truth(it, call_closure_like(it, a[1], [items[i]])): return some(i)
+    return none()
+
+@model('DoubleEndedIterator::rfind', 'Iterator::rfind')
+def _(it, a, info):
+    for v in drain_back(it, a[0]):
+        if truth(it, call_closure_like(it, a[1], [Ref([v], 0)])): return some(v)
+    return none()
+
+@model('DoubleEndedIterator::rfold', 'Iterator::rfold')
+def _(it, a, info):
+    acc = a[1]
+    for v in drain_back(it, a[0]): acc = call_closure_like(it, a[2], [acc, v])
+    return acc
+
+@model('DoubleEndedIterator::nth_back')
+def _(it, a, info):
+    for i, v in enumerate(drain_back(it, a[0])):
+        if i == a[1]: return some(v)
+    return none()
+
+class StepByIter(PyIter):
+    def __init__(self, src, n): self.src = src; self.n = n; self.first = True
+    def nxt(self, it):
+        if self.first:
+            self.first = False; return iter_next(it, self.src)
+        for _ in range(self.n - 1):
+            if iter_next(it, self.src) is STOP: return STOP
+        return iter_next(it, self.src)
+
+class FlatMapIter(PyIter):
+    def __init__(self, src, f): self.src = src; self.f = f; self.cur = None
+    def nxt(self, it):
+        while True:
+            if self.cur is not None:
+                v = iter_next(it, self.cur)
+                if v is not STOP: return v
+                self.cur = None
+            o = iter_next(it, self.src)
+            if o is STOP: return STOP
+            self.cur = to_iter(it, call_closure_like(it, self.f, [o]) if self.f is not None else o)
+
+@model('Iterator::step_by')
+def _(it, a, info): return StepByIter(a[0], a[1])
+@model('Iterator::flat_map')
+def _(it, a, info): return FlatMapIter(a[0], a[1])
+@model('Iterator::flatten')
+def _(it, a, info): return FlatMapIter(a[0], None)
+@model('Iterator::map_while')
+def _(it, a, info):
+    src, f = a[0], a[1]
+    def gen():
+        for v in drain(it, src):
+            r = call_closure_like(it, f, [v])
+            if r.variant == 'None': return
+            yield r.f[0]
+    return ListIter(list(gen()))
+@model('Iterator::product')
+def _(it, a, info):
+    acc = 1
+    for v in drain(it, a[0]): acc = do_binop('Mul', acc, deref(v), None)
+    return acc
+@model('Iterator::unzip')
+def _(it, a, info):
+    xs, ys = [], []
+    for v in drain(it, a[0]): xs.append(v.f[0]); ys.append(v.f[1])
+    return Agg('tuple', [RVec(xs), RVec(ys)])
+@model('Iterator::partition')
+def _(it, a, info):
+    xs, ys = [], []
+    for v in drain(it, a[0]):
+        (xs if truth(it, call_closure_like(it, a[1], [Ref([v], 0)])) else ys).append(v)
+    return Agg('tuple', [RVec(xs), RVec(ys)])
+@model('Iterator::eq')
+def _(it, a, info):
+    xs = list(drain(it, a[0])); ys = list(drain(it, to_iter(it, a[1])))
+    if len(xs) != len(ys): return False
+    for x, y in zip(xs, ys):
+        if not truth(it, values_equal(it, x, y)): return False
+    return True
+@model('Iterator::max_by_key', 'Iterator::min_by_key')
+def _(it, a, info):
+    best = STOP; bk = None
+    for v in drain(it, a[0]):
+        k = call_closure_like(it, a[1], [Ref([v], 0)])
+        if is_sym(k): raise Unsupported('max_by_key symbolic')
+        if best is STOP or (k >= bk if info['method'] == 'max_by_key' else k < bk): best, bk = v, k
+    return none() if best is STOP else some(best)
+@model('Iterator::size_hint')
+def _(it, a, info): return Agg('tuple', [0, none()])
+@model('ExactSizeIterator::len')
+def _(it, a, info):
+    src = deref1(a[0])
+    if isinstance(src, (ListIter, RefIter, RangeIter)): return src.j - src.i
+    raise Unsupported('len of iterator')
+@model('Iterator::try_fold', 'Iterator::try_for_each')
+def _(it, a, info):
+    raise Unsupported('try_fold')
